@@ -12,3 +12,13 @@ Theorem C19_source_v1_decode : forall b64dec parse_header unmarshal_ok issuer_of
   v1_decode b64dec parse_header unmarshal_ok issuer_of verify role_of k tok <> None.
 Proof. exact src_v1_decode_spec. Qed.
 Print Assumptions C19_source_v1_decode.
+
+(* the version-1 DecodeGeneric: Decode into generic claims of its own and nothing else - no check before it, none after
+   it (a generic token is accepted whatever kind it declares and whichever role signed it, as Decode with a generic target
+   decides): it hands back that Decode's error, for every reading of the observations *)
+Theorem C19_source_v1_decode_generic : forall (V : Type) (vnil : V) ds uh isA isC isO isS isU
+    (iss : V -> string) (pre : V -> list Z) (ver : V -> string -> string -> bool) (unm : V -> string -> option string) halg htyp (tok : string),
+  V1.DecodeGeneric V vnil ds uh isA isC isO isS isU iss pre ver unm halg htyp tok
+  = (vnil, V1.Decode V vnil ds uh isA isC isO isS isU halg htyp (iss vnil) (pre vnil) (ver vnil) (unm vnil) tok).
+Proof. exact src_v1_decode_generic. Qed.
+Print Assumptions C19_source_v1_decode_generic.
